@@ -105,14 +105,16 @@ Theorem C01_roundtrip_live_registry : forall v : value,
   exists t, parse (print (enc v)) = Some t /\ dec Generated.registry (vtype_of v) t = Some v.
 Proof. intros v Hw. exact (C01_roundtrip_wire Generated.registry v C01_registry_ok Hw). Qed.
 
-(* <failed/> with any count h round-trips (the h attribute is read back since
-   /repo d770553; before that this was the recorded finding C01_smfailed_h_refuted) *)
-Theorem C01_smfailed_roundtrip : forall (reg : registry) (h : option N),
-  opt_fits64 h = true ->
-  dec reg TSMFailed (enc (VSMFailed h)) = Some (VSMFailed h).
+(* <failed/> with any count h and any of the 27 conditions round-trips (h is read back
+   since /repo d770553, the condition reset since the f6 repair; before d770553 this was
+   the recorded finding C01_smfailed_h_refuted) *)
+Theorem C01_smfailed_roundtrip : forall (reg : registry) (h : option N) (c : str),
+  opt_fits64 h = true -> (isempty c || existsb (str_eqb c) failed_conditions) = true ->
+  dec reg TSMFailed (enc (VSMFailed h c)) = Some (VSMFailed h c).
 Proof.
-  intros reg [n|] H; [|reflexivity].
-  cbn. rewrite parse_uint_utoa; [reflexivity|now apply fits64_lt].
+  intros reg h c Hh Hc.
+  assert (Hw : wf_value [] (VSMFailed h c) = true) by (cbn [wf_value]; now rewrite Hh, Hc).
+  pose proof (dec_enc [] (VSMFailed h c) eq_refl Hw) as H. exact H.
 Qed.
 
 (* ---------- non-vacuity ---------- *)
@@ -125,6 +127,7 @@ Example C01_examples_wf :
   wf_value Generated.registry C01_example_message = true
   /\ wf_value Generated.registry C01_example_iq = true
   /\ wf_value Generated.registry (VSMEnable (Some 5) (Some true)) = true
+  /\ wf_value Generated.registry (VSMFailed (Some 7) [114;101;115;101;116]) = true
   /\ wf_doc (enc C01_example_message) = true
   /\ wf_toks (toks (enc C01_example_iq)) = true
   /\ all_legal [60; 62; 38; 34; 39; 93; 93; 62; 9; 10; 13; 233; 28450; 128512] = true.
